@@ -54,6 +54,7 @@ theorem pinv_stepCrash (s : State) (m : Move) (k j : Nat) (h : Inv s) (ha : assu
   | deleteApp kind ns app => exact (inv_step s _ h ha).toPInv
   | setPool name size => exact (inv_step s _ h ha).toPInv
   | listerSync pods apps => exact (inv_step s _ h ha).toPInv
+  | fipSync => exact (inv_step s _ h ha).toPInv
   | dropEvent i => exact (inv_step s _ h ha).toPInv
   | resyncSnap => exact (inv_step s _ h ha).toPInv
   | restart => exact (inv_step s _ h ha).toPInv
@@ -95,6 +96,7 @@ theorem pinv_confAfter (s : State) (m : Move) (k j : Nat) (h : Inv s) (ha : assu
   | deleteApp kind ns app => exact hp
   | setPool name size => exact hp
   | listerSync pods apps => exact hp
+  | fipSync => exact hp
   | dropEvent i => exact hp
   | resyncSnap => exact hp
   | restart => exact hp
